@@ -28,11 +28,12 @@ def spec_field(spec, key):
     return m.group(1) if m else None
 
 
+ITER_FLAGS = ("deque_same", "fused", "imglen_same", "layout_same", "twin_same", "want_n_same")
 _EMBEDDED_ERR = re.compile(r"!(Null|Bounds|ZeroFill|Unmapped|Misaligned|BadMagic|PeMagic|Insanity|Invalid|Overflow|Encoding|Aliasing)\b")
 
 # which property's statement governs an operation family (error kinds named there must match exactly)
 FAMILY_OWNER = {"r2f": "C04", "f2r": "C04", "slice": "C04", "secbytes": "C04", "slice_bytes": "C04", "read_bytes": "C05", "hdrw2": "C07", "read": "C05", "r2v": "C05", "v2r": "C05",
-                "to_view": "C06", "to_file": "C06", "from_bytes": "C07", "hdr": "C07", "hdrw": "C07", "byrva": "C07", "byname": "C07",
+                "to_view": "C06", "to_file": "C06", "img_to_view": "C06", "img_to_file": "C06", "walk": "C19", "walktext": "C19", "iter": "C18", "from_bytes": "C07", "hdr": "C07", "hdrw": "C07", "byrva": "C07", "byname": "C07",
                 "exports": "C08", "export": "C08", "imports": "C09", "iat": "C09", "scan": "C10", "scan_code": "C10", "finds": "C10",
                 "finds_code": "C10", "pat_exec": "C10", "pat_sem": "C11", "pat_ref": "C11", "pat_parse": "C17", "pat_macro": "C17",
                 "ver": "C13", "verat": "C13", "debug": "C15", "tls": "C15", "loadcfg": "C15", "exc": "C15", "security": "C15",
@@ -82,6 +83,12 @@ class Prop:
         'spec'  : implementation contradicts the executable specification on an in-hypothesis input
         'model' : implementation and model disagree (correspondence broken)"""
         hyp = spec_field(spec, "hyp")
+        if op.startswith("iter ") and klass(impl) == "ok":
+            # iterator histories are answered by the harness alone (the iterator beside a deque of its items, the
+            # wrapper beside the iterator it wraps, …): a flag that is 0 is a failed comparison, whoever runs the stream
+            bad = [fl for fl in ITER_FLAGS if (" %s=0" % fl) in impl]
+            if bad:
+                return {"kind": "spec", "text": "iterator history: %s failed: %s" % (", ".join(bad), impl[:300])}
         r = self.oracle(op, impl, model, spec)
         if r:
             return {"kind": "spec", "text": r}
@@ -120,6 +127,8 @@ class Prop:
         if pi == pm:
             return True
         named = self.named_for(op)
+        if named is None and pi.startswith("noimg ") and pm.startswith("noimg "):
+            named = set()
         if named is not None:
             for pre in ("err ", "noimg "):
                 # (`noimg <Kind>`: the constructor rejected the buffer — which of several applicable checks
